@@ -150,6 +150,9 @@ func TestC06Rapid(t *testing.T) {
 					}
 				case "ahead":
 					seq = next + uint64(rapid.IntRange(1, 3).Draw(rt, "ahead"))
+					if rapid.IntRange(0, 3).Draw(rt, "farahead") == 0 {
+						seq = rapid.SampledFrom([]uint64{next + 1<<63, next + 1<<63 - 1, ^uint64(0), 1 << 63, ^uint64(0) - 1}).Draw(rt, "far")
+					}
 				case "any":
 					seq = uint64(rapid.IntRange(0, nd+2).Draw(rt, "seq"))
 				}
@@ -159,8 +162,15 @@ func TestC06Rapid(t *testing.T) {
 					sender = tc.executors[rapid.IntRange(0, len(tc.executors)-1).Draw(rt, "exec")].Str
 				}
 				var msg *opchildtypes.MsgFinalizeTokenDeposit
-				if seq >= 1 && int(seq) <= len(pend) {
+				if seq >= 1 && seq <= uint64(len(pend)) && !(seq < next && rapid.IntRange(0, 2).Draw(rt, "staleOtherContent") == 0) {
 					msg = relayMsg(sender, pend[seq-1])
+				} else if seq >= 1 && seq < next {
+					// an already processed sequence number with other content (another denom, recipient, amount)
+					cp := *pend[0]
+					cp.Seq, cp.L1Denom, cp.L2Denom, cp.To = seq, "unseen", tcL2Denom(tc, "unseen"), tc.users[0].Str
+					cp.Amount = math.NewInt(int64(rapid.IntRange(0, 9).Draw(rt, "staleamt")))
+					msg = relayMsg(sender, &cp)
+					c.Class("stale-sequence-with-other-content")
 				} else {
 					// no such L1 deposit: an executor can only fabricate it
 					cp := *pend[0]
@@ -173,7 +183,7 @@ func TestC06Rapid(t *testing.T) {
 				if isExec && seq > next {
 					sawGap = true
 				}
-				if isExec && seq == next && int(seq) > len(pend) {
+				if isExec && seq == next && seq > uint64(len(pend)) {
 					// a fabricated deposit at the expected sequence is outside the domain ("faithful relay"): skip
 					return
 				}
